@@ -70,6 +70,46 @@ func rewriteGo(fset *token.FileSet, g *ast.GoStmt, n *int) ast.Stmt {
 	return &ast.BlockStmt{List: append(pre, spawn)}
 }
 
+var builtins = map[string]bool{"close": true, "delete": true, "panic": true, "print": true, "println": true, "clear": true, "copy": true}
+
+// rewriteDefer turns `defer f(a...)` into `_f, _a := f, a; defer func(){ Yield(id#defer); _f(_a...) }()`
+// so that the deferred call is a point where the replay controller can stop the goroutine.
+func rewriteDefer(fset *token.FileSet, d *ast.DeferStmt, n *int) []ast.Stmt {
+	if _, isLit := d.Call.Fun.(*ast.FuncLit); isLit {
+		return nil
+	}
+	if id, ok := d.Call.Fun.(*ast.Ident); ok && id.Name == "recover" {
+		return nil
+	}
+	p := fset.Position(d.Pos())
+	yid := fmt.Sprintf("%s:%d:%d#defer", p.Filename, p.Line, p.Column)
+	var pre []ast.Stmt
+	tmp := func(e ast.Expr) ast.Expr {
+		*n++
+		name := fmt.Sprintf("_vs%d", *n)
+		pre = append(pre, &ast.AssignStmt{Lhs: []ast.Expr{ast.NewIdent(name)}, Tok: token.DEFINE, Rhs: []ast.Expr{e}})
+		return ast.NewIdent(name)
+	}
+	call := &ast.CallExpr{Ellipsis: d.Call.Ellipsis}
+	if id, ok := d.Call.Fun.(*ast.Ident); ok && builtins[id.Name] {
+		call.Fun = id
+	} else {
+		call.Fun = tmp(d.Call.Fun)
+	}
+	for _, a := range d.Call.Args {
+		call.Args = append(call.Args, tmp(a))
+	}
+	if d.Call.Ellipsis.IsValid() {
+		call.Ellipsis = token.Pos(1)
+	}
+	y := &ast.ExprStmt{X: &ast.CallExpr{
+		Fun:  &ast.SelectorExpr{X: ast.NewIdent("vsched"), Sel: ast.NewIdent("Yield")},
+		Args: []ast.Expr{&ast.BasicLit{Kind: token.STRING, Value: strconv.Quote(yid)}},
+	}}
+	body := &ast.FuncLit{Type: &ast.FuncType{Params: &ast.FieldList{}}, Body: &ast.BlockStmt{List: []ast.Stmt{y, &ast.ExprStmt{X: call}}}}
+	return append(pre, &ast.DeferStmt{Call: &ast.CallExpr{Fun: body}})
+}
+
 func instrList(fset *token.FileSet, list []ast.Stmt, n *int) []ast.Stmt {
 	var out []ast.Stmt
 	for _, s := range list {
@@ -80,6 +120,12 @@ func instrList(fset *token.FileSet, list []ast.Stmt, n *int) []ast.Stmt {
 		case *ast.GoStmt:
 			out = append(out, yieldStmt(fset, s.Pos()), rewriteGo(fset, x, n))
 			continue
+		case *ast.DeferStmt:
+			if d := rewriteDefer(fset, x, n); d != nil {
+				out = append(out, yieldStmt(fset, s.Pos()))
+				out = append(out, d...)
+				continue
+			}
 		case *ast.ExprStmt:
 			// vrt.Go(name, fn) in harness code: pass the original source position as the spawn site
 			if ce, ok := x.X.(*ast.CallExpr); ok {
@@ -138,6 +184,22 @@ func instrument(src, dst string) error {
 		return err
 	}
 	n := 0
+	// time.AfterFunc(d, f) -> vsched.AfterFunc(site, d, f)
+	ast.Inspect(f, func(nd ast.Node) bool {
+		ce, ok := nd.(*ast.CallExpr)
+		if !ok {
+			return true
+		}
+		if se, ok := ce.Fun.(*ast.SelectorExpr); ok && se.Sel.Name == "AfterFunc" {
+			if id, ok := se.X.(*ast.Ident); ok && id.Name == "time" && len(ce.Args) == 2 {
+				p := fset.Position(ce.Pos())
+				site := fmt.Sprintf("%s:%d", p.Filename, p.Line)
+				ce.Fun = &ast.SelectorExpr{X: ast.NewIdent("vsched"), Sel: ast.NewIdent("AfterFunc")}
+				ce.Args = append([]ast.Expr{&ast.BasicLit{Kind: token.STRING, Value: strconv.Quote(site)}}, ce.Args...)
+			}
+		}
+		return true
+	})
 	skip := map[*ast.BlockStmt]bool{}
 	ast.Inspect(f, func(nd ast.Node) bool {
 		switch x := nd.(type) {
